@@ -50,16 +50,16 @@ func c15NewCheck(cs *vc15.Case) *Check {
 
 // names of the refusals, by the message text of the SMTPError literal
 var c15Messages = map[string]string{
-	"Authentication required":                      "authRequired",
-	"Unable to normalize sender address":           "normFrom",
-	"Unable to normalize authorization username":   "normAuth",
-	"Internal error during policy check":           "internal",
-	"Unauthorized use of sender address":           "noMatch",
-	"Missing From header":                          "missingFrom",
-	"Malformed From header":                        "malformedFrom",
-	"Multiple From addresses are not allowed":      "multipleFromAddrs",
-	"Multiple From header fields are not allowed":  "repeatedFrom",
-	"Malformed Sender header":                      "malformedSender",
+	"Authentication required":                       "authRequired",
+	"Unable to normalize sender address":            "normFrom",
+	"Unable to normalize authorization username":    "normAuth",
+	"Internal error during policy check":            "internal",
+	"Unauthorized use of sender address":            "noMatch",
+	"Missing From header":                           "missingFrom",
+	"Malformed From header":                         "malformedFrom",
+	"Multiple From addresses are not allowed":       "multipleFromAddrs",
+	"Multiple From header fields are not allowed":   "repeatedFrom",
+	"Malformed Sender header":                       "malformedSender",
 	"Multiple Sender header fields are not allowed": "repeatedSender",
 }
 
